@@ -3,7 +3,7 @@ from .. import terms as T
 from ..lib import summarise, heap_writes, V, A, normal, raising, cond_str, no_inline, writers_of_attr
 from ..symex import Valuation, default_policy
 from ..terms import fmt, ZERO, num
-from .sizers import sizing_paths, EQUITY, call_is, loop_asset_weight, is_empty_weights_path
+from .sizers import sizing_paths, EQUITY, call_is, loop_asset_weight, is_empty_weights_path, require_fresh_target, is_nan_test_of
 
 CN = 'DollarWeightedCashBufferedOrderSizer'
 NEG = ('call', ('ext', 'ANY'), (('comp', 'list', ('not', ('cmp', '<=', num(0), ('bv', 0))), (((('bv', 0),), ('call', ('meth', 'values'), (V('weights'),), ()), ()),)),), ())
@@ -28,6 +28,8 @@ def check(ctx):
     ctx.sub(c05.s4_fee_models)
     ctx.sub(c08.sizer_selection)       # the sizer is built with the caller's buffer, unmodified
     ctx.sub(c06.converter)             # an unavailable price stays NaN (no back-fill), so it can be rejected
+    ctx.sub(c06.accessors)             # ... and "no bar at or before dt" is answered NaN by the data source (not the last bar's price)
+    ctx.sub(c06.handler)               # ... which the data handler hands to the sizer unchanged
 
 
 def s1_formula(ctx):
@@ -38,6 +40,7 @@ def s1_formula(ctx):
         p, lp = s['path'], s['loop']
         asset, w, wsrc = loop_asset_weight(lp)
         alloc = T.t_mul(T.t_mul(EQUITY, T.t_sub(num(1), A('self', 'cash_buffer_percentage'))), w)
+        require_fresh_target(ctx, 'C10.S1', s, CN, 'C10.S1|fresh-target')
         nb = 0
         for b in s['bodies']:
             bp = b['path']
@@ -141,7 +144,7 @@ def s2_guards(ctx):
             bp = b['path']
             nan = None
             for c, v, _ in bp.conds:
-                if call_is(c, 'ISNAN') and b['price'] and c[2] == (b['price'][0].result,):
+                if b['price'] and is_nan_test_of(c, b['price'][0].result):
                     nan = v
             if bp.outcome == 'raise':
                 seen_raise = seen_raise or (nan is True and bp.state.exc[1] == 'ValueError')
